@@ -39,7 +39,9 @@ def dump(x):
     """nested, comparable form of an extracted Python object"""
     if isinstance(x, freephil.scope_extract):
         return {k: dump(v) for k, v in x.__dict__.items() if not (k.startswith("__") and k.endswith("__"))}
-    if isinstance(x, list) and not (x and all(isinstance(w, tokenizer.word) for w in x)):
+    if isinstance(x, list) and x and all(isinstance(w, tokenizer.word) for w in x):
+        return ["w", [[enc(w.value), w.quote_token] for w in x]]
+    if isinstance(x, list):
         return [dump(v) for v in x]
     return pval_j(x)
 
